@@ -363,6 +363,60 @@ fn limits(run: &Arc<Run>) {
             }
         }
     }
+    // many distinct UUID types (each costs a definition item and an item: at most 511 fit): round
+    // trip, recycle the copy, use every known type again and register one more
+    for n in [200usize, 255, 256, 257, 258, 300, 511] {
+        run.add_evals(1);
+        let uu = |k: usize| Uuid::from_bytes([0x77, (k >> 8) as u8, k as u8, 3, 4, 5, 6, 7, 8, 9, 10, 11, 12, 13, 14, (k * 7) as u8]);
+        let r = vp_core::catch(|| -> Result<String, String> {
+            let mut b = Builder::new();
+            for k in 0..n {
+                b.add_item(TypeId::Uuid(uu(k)), (k % 7) as u16, &[k as i32]).map_err(|e| format!("type #{} refused: {:?}", k, e))?;
+            }
+            let s = b.finish();
+            let mut tmp = Vec::new();
+            let mut ints = vec![0i32; 17000];
+            let len = s.write_to_ints(&mut tmp, &mut ints).map_err(|_| "capacity".to_string())?.len();
+            let mut back = Snap::empty();
+            let mut w: Vec<Warning> = Vec::new();
+            back.read_from_ints(&mut w, &ints[..len]).map_err(|e| format!("re-read fails: {:?}", e))?;
+            if vp_snap::snap_items(&back) != vp_snap::snap_items(&s) || back.crc() != s.crc() || !w.is_empty() {
+                return Err("copy differs".into());
+            }
+            for k in 0..n {
+                if back.item(TypeId::Uuid(uu(k)), (k % 7) as u16) != Some(&[k as i32][..]) {
+                    return Err(format!("lookup of UUID type #{} fails in the copy", k));
+                }
+            }
+            if n < 511 {
+                // (at 511 types the snapshot is full: 1022 items)
+                for (which, src) in [("original", s), ("copy", back)] {
+                    let mut b2 = src.recycle();
+                    for k in 0..n {
+                        b2.add_item(TypeId::Uuid(uu(k)), 1, &[1]).map_err(|e| format!("recycled {}: known UUID type #{} refused: {:?}", which, k, e))?;
+                    }
+                    b2.add_item(TypeId::Uuid(uu(n + 5)), 1, &[2]).map_err(|e| format!("recycled {} with {} known UUID types refuses a new UUID type: {:?}", which, n, e))?;
+                    let s2 = b2.finish();
+                    let l2 = s2.write_to_ints(&mut tmp, &mut ints).map_err(|_| "capacity".to_string())?.len();
+                    let mut back2 = Snap::empty();
+                    back2.read_from_ints(&mut w, &ints[..l2]).map_err(|e| format!("recycled {}: re-read fails: {:?}", which, e))?;
+                    if vp_snap::snap_items(&back2) != vp_snap::snap_items(&s2) || back2.item(TypeId::Uuid(uu(n + 5)), 1) != Some(&[2][..]) {
+                        return Err(format!("recycled {}: copy differs", which));
+                    }
+                }
+            }
+            Ok(format!("limit:uuid-types:{}", if n <= 256 { "<=256" } else { ">256" }))
+        });
+        match r {
+            Ok(Ok(c)) => run.class(&c, || json!({"uuid_types": n})),
+            Ok(Err(d)) => {
+                run.violation(&format!("c10:limit:{}", d.split(':').next().unwrap_or("").split('#').next().unwrap_or("")), &format!("{} UUID types: {}", n, d), json!({"family": "many UUID types", "n": n}));
+            }
+            Err(p) => {
+                run.violation(&format!("c10:{}", vp_core::panic_sig(&p)), &p, json!({"family": "many UUID types", "n": n}));
+            }
+        }
+    }
     for words in [16370usize, 16375, 16378, 16379, 16380, 16381, 16382, 16383, 16384] {
         run.add_evals(1);
         let r = vp_core::catch(|| -> Result<String, String> {
@@ -470,7 +524,7 @@ fn main() {
         .reduce(LocalClasses::new, |a, b| a.merge(b));
     run.merge_classes(lc);
     run.finish(
-        &format!("all builder scripts of length <= {} over add_item(type in {{ordinal 1, ordinal 2, 3 UUID types}}, id in {{0,1,65535}}, data in {{[],[7],[1,2,3]}}) (an add the builder refuses leaves the reference map unchanged and the builder stays in use): written to bytes and ints, read back, compared through items(), item(type,id) for every key of the alphabet and crc(); copies obtained by delta from the empty snapshot and from the script prefix; the wire forms read again into objects that already hold the same / another snapshot; received copy recycled (known UUID types keep their number, a new one gets a fresh one), then two more generations in which the UUID types lie dormant and are used again; item-count and size limit families; every script of length <= {} on a builder prefilled to 0..48 bytes below the 64 KiB limit or to 1020..1024 items", depth, ldepth),
+        &format!("all builder scripts of length <= {} over add_item(type in {{ordinal 1, ordinal 2, 3 UUID types}}, id in {{0,1,65535}}, data in {{[],[7],[1,2,3]}}) (an add the builder refuses leaves the reference map unchanged and the builder stays in use): written to bytes and ints, read back, compared through items(), item(type,id) for every key of the alphabet and crc(); copies obtained by delta from the empty snapshot and from the script prefix; the wire forms read again into objects that already hold the same / another snapshot; received copy recycled (known UUID types keep their number, a new one gets a fresh one), then two more generations in which the UUID types lie dormant and are used again; item-count and size limit families; 200..511 distinct UUID types round-tripped, recycled (original and copy), every known type used again and one more registered; every script of length <= {} on a builder prefilled to 0..48 bytes below the 64 KiB limit or to 1020..1024 items", depth, ldepth),
         true,
     );
 }
